@@ -1166,6 +1166,39 @@ def trigger_scenarios(quick=False):
     t("sidechains-stripped-60pct:nodebump-noopt",
       dict(B14, damage=[[i, "keep_backbone"] for i in range(14) if i % 5],
            argv=["--ff=PARSE", "--nodebump", "--noopt"]))
+    # side chains cut off from the backbone: the intermediate carbons (CB, CG) are missing,
+    # the distal atoms are present -- far over the repair limit, and every remaining
+    # side-chain atom has no path to CA ("Found gap in biomolecule structure")
+    for item, nres in (("cterm_hid.pdb", 14), ("1AJJ.pdb", 20)):
+        st = {"item": item}
+        if item != "cterm_hid.pdb":
+            st["window"] = [0, nres]
+        dmg = [[i, "drop_atom:CB"] for i in range(nres)] + [[i, "drop_atom:CG"] for i in range(nres)]
+        for label, opts in (("parse-noopt", ["--ff=PARSE", "--noopt"]),
+                            ("parse", ["--ff=PARSE"]),
+                            ("amber-noopt", ["--ff=AMBER", "--noopt"]),
+                            ("parse-nodebump-noopt", ["--ff=PARSE", "--nodebump", "--noopt"])):
+            t(f"sidechains-disconnected:{item.split('.')[0]}:{label}",
+              dict(st, damage=dmg, argv=opts))
+    # ... and the variant that ONLY the connectivity check stops: complete termini (OXT
+    # present), intermediate carbons missing only in residues without methyl branches, the
+    # missing atoms' charges summing to zero -- no later stage trips over this structure, so
+    # a connectivity check that is skipped, cached or disarmed lets it through to a PQR
+    hid_groups = corpus.polymer_groups(corpus.residue_groups(
+        corpus.first_model_lines(corpus.load("cterm_hid.pdb"))))
+    only = [[len(hid_groups) - 1, "add_oxt"]]
+    for i, g in enumerate(hid_groups):
+        if g["resname"] in ("ARG", "GLN", "LYS", "PRO", "SER", "PHE", "TRP"):
+            only.append([i, "drop_atom:CB"])
+            if g["resname"] != "SER":
+                only.append([i, "drop_atom:CG"])
+            if g["resname"] == "LYS":
+                only.append([i, "drop_atom:CD"])
+    for label, opts in (("parse-noopt", ["--ff=PARSE", "--noopt"]),
+                        ("parse-nodebump-noopt", ["--ff=PARSE", "--nodebump", "--noopt"]),
+                        ("parse", ["--ff=PARSE"])):
+        t(f"sidechains-disconnected-connectivity-only:{label}",
+          dict(base, damage=only, argv=opts))
     t("waters-only", dict({"item": "1AJJ.pdb", "window": [0, 1], "waters": 10},
                           damage=[[0, "drop_backbone"], [0, "keep_backbone"]], argv=amber))
     t("waters-only:assign-only", dict({"item": "1AJJ.pdb", "window": [0, 1], "waters": 10},
